@@ -21,7 +21,9 @@ Pre == StdPre(EnvId)
 L == IF P_SIZE >= 2 THEN LeavesFull ELSE LeavesSmall
 
 \* a universe element is a tree (environment E1) or [e, envid]
-MkCase(x) == IF "envid" \in DOMAIN x
+MkCase(x) == IF "style" \in DOMAIN x
+             THEN [e |-> x.e, envid |-> x.envid, style |-> x.style, run |-> Run2(x.e, InEnv(StdEnvIn(x.envid)), StdPre(x.envid), StdPost(x.envid))]
+             ELSE IF "envid" \in DOMAIN x
              THEN [e |-> x.e, envid |-> x.envid, run |-> Run2(x.e, InEnv(StdEnvIn(x.envid)), StdPre(x.envid), StdPost(x.envid))]
              ELSE [e |-> x, envid |-> EnvId, run |-> Run(x, Env, Pre)]
 IsCase == "run" \in DOMAIN st
@@ -56,6 +58,8 @@ Universe ==
     [] P_MODE = "over" -> OverProgs
     [] P_MODE = "bc" -> BcProgs
     [] P_MODE = "same" -> SameProgs
+    [] P_MODE = "dbg" -> DbgProgs
+    [] P_MODE = "dbg2" -> DbgProgs2(P_SIZE)
     [] OTHER -> <<>>
 NU == Len(Universe)
 NSeeds == 64
@@ -68,7 +72,8 @@ Next == /\ "seed" \in DOMAIN st
            ELSE \E j \in SeedLo(st.seed)..SeedHi(st.seed) : st' = MkCase(Universe[j])
 
 Emit ==
-  /\ IsCase => EmitCase([fam |-> "eval", e |-> st.e, envid |-> st.envid])
+  /\ IsCase => EmitCase(IF "style" \in DOMAIN st THEN [fam |-> "eval", e |-> st.e, envid |-> st.envid, style |-> st.style]
+                                                    ELSE [fam |-> "eval", e |-> st.e, envid |-> st.envid])
   /\ "envs" \in DOMAIN st => \A i \in 1..Len(EnvIds) :
         EmitCase([envid |-> EnvIds[i], env |-> StdEnvIn(EnvIds[i]), pre |-> StdPre(EnvIds[i]), post |-> StdPost(EnvIds[i])])
 
